@@ -20,7 +20,18 @@ type ConcOp struct {
 	Op    string `json:"op"` // read | readto | write | size
 	Addr  uint64 `json:"addr"`
 	Yield bool   `json:"yield,omitempty"` // runtime.Gosched() before the operation
+	// Pkg: through the package-level wrapper (disk.Read, disk.Write, … on the disk bound by disk.Init)
+	// instead of the Disk method.
+	Pkg bool `json:"pkg,omitempty"`
+	// Pool k > 0 (writes): the block content is shared content number k instead of one unique to this
+	// write, so the same block is written again and again, by several clients (seeded change C10-8:
+	// a wrapper that skips a Write repeating "the last one"). Not used by file-mixed, whose oracle
+	// identifies the write a read observed by its content.
+	Pool int `json:"pool,omitempty"`
 }
+
+// PoolTag is the tag of shared content k.
+func PoolTag(k int) uint64 { return uint64(0xfff)<<32 | uint64(k) }
 
 // ConcCase is a concurrent workload.
 //
@@ -48,6 +59,9 @@ func (c ConcCase) Validate() error {
 			case "read", "readto", "write", "size":
 			default:
 				return fmt.Errorf("unknown op %q", op.Op)
+			}
+			if op.Pool < 0 || op.Pool > 8 || (op.Pool > 0 && c.Kind == "file-mixed") {
+				return fmt.Errorf("bad pool")
 			}
 		}
 	}
@@ -117,14 +131,25 @@ func doOp(d disk.Disk, ci, j int, op ConcOp, wbuf, rbuf []byte, now func() int64
 	switch op.Op {
 	case "write":
 		r.Tag = WriteTag(ci, j)
+		if op.Pool > 0 {
+			r.Tag = PoolTag(op.Pool)
+		}
 		models.TagBlock(wbuf, r.Tag)
 		r.Call = now()
-		r.Refused = catch(func() { d.Write(op.Addr, wbuf) })
+		if op.Pkg {
+			r.Refused = catch(func() { disk.Write(op.Addr, wbuf) })
+		} else {
+			r.Refused = catch(func() { d.Write(op.Addr, wbuf) })
+		}
 		r.Ret = now()
 	case "read":
 		var b disk.Block
 		r.Call = now()
-		r.Refused = catch(func() { b = d.Read(op.Addr) })
+		if op.Pkg {
+			r.Refused = catch(func() { b = disk.Read(op.Addr) })
+		} else {
+			r.Refused = catch(func() { b = d.Read(op.Addr) })
+		}
 		r.Ret = now()
 		if !r.Refused {
 			decode(&r, b)
@@ -134,14 +159,22 @@ func doOp(d disk.Disk, ci, j int, op ConcOp, wbuf, rbuf []byte, now func() int64
 			rbuf[i] = 0xee
 		}
 		r.Call = now()
-		r.Refused = catch(func() { d.ReadTo(op.Addr, rbuf) })
+		if op.Pkg {
+			r.Refused = catch(func() { disk.Get().ReadTo(op.Addr, rbuf) }) // no wrapper for ReadTo: the bound disk itself
+		} else {
+			r.Refused = catch(func() { d.ReadTo(op.Addr, rbuf) })
+		}
 		r.Ret = now()
 		if !r.Refused {
 			decode(&r, rbuf)
 		}
 	case "size":
 		r.Call = now()
-		r.Size = d.Size()
+		if op.Pkg {
+			r.Size = disk.Size()
+		} else {
+			r.Size = d.Size()
+		}
 		r.Ret = now()
 	}
 	return r
@@ -154,6 +187,7 @@ func doOp(d disk.Disk, ci, j int, op ConcOp, wbuf, rbuf []byte, now func() int64
 func RunConc(c ConcCase, d disk.Disk, stamps bool) []Rec {
 	old := runtime.GOMAXPROCS(c.Procs)
 	defer runtime.GOMAXPROCS(old)
+	disk.Init(d) // the disk the package-level wrappers act on (ConcOp.Pkg)
 	n := len(c.Clients)
 	per := make([][]Rec, n)
 	var clock atomic.Int64
